@@ -1015,12 +1015,16 @@ impl Eq for RelayConnectionState {}
 #[derive(Debug, Clone)]
 pub(crate) struct HomeRelayWatch {
     inner: Watchable<Option<RelayStatus>>,
+    /// Serializes writers: makes the URL check and the write in [`Self::set_status`]
+    /// atomic with respect to [`Self::set`] and [`Self::clear`].
+    write_lock: Arc<std::sync::Mutex<()>>,
 }
 
 impl Default for HomeRelayWatch {
     fn default() -> Self {
         Self {
             inner: Watchable::new(None),
+            write_lock: Default::default(),
         }
     }
 }
@@ -1028,11 +1032,13 @@ impl Default for HomeRelayWatch {
 impl HomeRelayWatch {
     /// Set the home relay URL and status. Used by [`RelayActor`] on relay changes.
     fn set(&self, url: RelayUrl, state: RelayConnectionState) {
+        let _guard = self.write_lock.lock().expect("poisoned");
         let _ = self.inner.set(Some(RelayStatus::new(url, state)));
     }
 
     /// Clear the home relay (no preferred relay). Used by [`RelayActor`].
     fn clear(&self) {
+        let _guard = self.write_lock.lock().expect("poisoned");
         let _ = self.inner.set(None);
     }
 
@@ -1041,8 +1047,10 @@ impl HomeRelayWatch {
     /// This is the only write method [`ActiveRelayActor`] should use. It prevents a
     /// demoted actor from overwriting a newer home relay's status: the [`RelayActor`]
     /// updates the URL in the watchable *before* sending `SetHomeRelay(false)`, so by
-    /// the time the old actor tries to write, the URL no longer matches.
+    /// the time the old actor tries to write, the URL no longer matches. The check and
+    /// the write happen under the writer lock, so the URL cannot change in between.
     fn set_status(&self, url: &RelayUrl, state: RelayConnectionState) {
+        let _guard = self.write_lock.lock().expect("poisoned");
         if self.inner.get().as_ref().map(RelayStatus::url) == Some(url) {
             let _ = self.inner.set(Some(RelayStatus::new(url.clone(), state)));
         }
